@@ -189,6 +189,7 @@ pub fn engine_auth(cases: Vec<Value>, out: &mut NdjsonOut) {
         drop(res_tx);
         // ---- forced schedule
         let sched = case["sched"].as_array().cloned().unwrap_or_default();
+        let t_case = Instant::now();
         let step_timeout = Duration::from_millis(get_u64(&case, "step_timeout_ms").unwrap_or(3500));
         let mut steps = Vec::new();
         let mut broken = false;
@@ -239,7 +240,7 @@ pub fn engine_auth(cases: Vec<Value>, out: &mut NdjsonOut) {
                 }
             }
             let ok = (target == "-" && arrived == "finished") || arrived == target;
-            steps.push(json!({"k": k, "a": st["a"], "to": to, "target": target, "arrived": arrived, "passed_n": passed.len(), "passed": passed.iter().rev().take(4).rev().collect::<Vec<_>>(), "ok": ok, "probe": probe(&data)}));
+            steps.push(json!({"k": k, "a": st["a"], "to": to, "target": target, "arrived": arrived, "passed_n": passed.len(), "passed": passed.iter().rev().take(4).rev().collect::<Vec<_>>(), "ok": ok, "t_ms": t_case.elapsed().as_millis() as u64, "probe": probe(&data)}));
             if !ok {
                 broken = true;
                 break;
@@ -265,7 +266,7 @@ pub fn engine_auth(cases: Vec<Value>, out: &mut NdjsonOut) {
                     match hub.wait_arrival(a, deadline.saturating_duration_since(Instant::now()).max(Duration::from_millis(1))) {
                         Arrival::At(name, _) => {
                             steps.push(json!({"k": k, "a": procs[(a - 1) as usize], "to": "?", "target": "?", "arrived": name, "passed_n": 0, "passed": [], "ok": true,
-                                              "completion": true, "probe": probe(&data)}));
+                                              "completion": true, "t_ms": t_case.elapsed().as_millis() as u64, "probe": probe(&data)}));
                             k += 1;
                             if name == "auth.h.idle" {
                                 break;
@@ -273,7 +274,7 @@ pub fn engine_auth(cases: Vec<Value>, out: &mut NdjsonOut) {
                         }
                         Arrival::Finished => {
                             steps.push(json!({"k": k, "a": procs[(a - 1) as usize], "to": "?", "target": "?", "arrived": "finished", "passed_n": 0, "passed": [], "ok": true,
-                                              "completion": true, "probe": probe(&data)}));
+                                              "completion": true, "t_ms": t_case.elapsed().as_millis() as u64, "probe": probe(&data)}));
                             k += 1;
                             break;
                         }
